@@ -157,7 +157,7 @@ theorem get_set (A : Mat α n) (i j i' j' : Fin n) (x : α) :
     by_cases hj : j = j'
     · subst hj; simp
     · have : (j : Nat) ≠ j' := fun e => hj (Fin.ext e)
-      simp [hj, this, Vector.getElem_set]
+      simp [hj, this]
   · have : (i : Nat) ≠ i' := fun e => hi (Fin.ext e)
     simp [hi, this]
 
@@ -668,7 +668,7 @@ theorem laneVec_backsolve (A : Mat (V K) n) (rhs : Vector (V K) n) (l : Fin L) :
   apply foldl_hom' (X.lane l)
   intro acc j
   by_cases hij : i < j
-  · simp only [hij, if_true, lane_vsub X hX R, lane_vmul X hX R, laneMat_get]
+  · simp only [hij, if_true, lane_vsub X hX R, lane_vmul X hX R]
   · simp only [hij, if_false]
 
 private theorem projState_init_rhs (A : Mat (V K) n) (b : Vector (V K) n) (l : Fin L) (hX : X.Lawful) :
